@@ -114,10 +114,24 @@ class Findings:
             self.known = [f for f in data.get("findings", []) if f["property"] == pid]
             self.fixed = [f for f in data.get("fixed", []) if f["property"] == pid]
 
-    def match(self, sig):
+    def match(self, sig, witness=None):
+        """a listed finding matches by exact signature, or by signature prefix plus token spellings that
+        must occur (in this order) in the witness input - specific enough that a different defect is still reported"""
         for f in self.known:
-            if f["signature"] == sig:
+            if f.get("signature") == sig:
                 return f
+            pre = f.get("signature_prefix")
+            if pre and sig.startswith(pre):
+                need = f.get("witness_has", [])
+                if witness is None:
+                    continue
+                words = witness.split()
+                i = 0
+                for w in words:
+                    if i < len(need) and w == need[i]:
+                        i += 1
+                if i == len(need):
+                    return f
         return None
 
 
